@@ -607,7 +607,9 @@ def mkShard (k i : Int) (d : DS) : Res DS := do
 
 /-- `self.shuffle()` with the permutation the generator produced as an explicit input -/
 def mkShuffleOnce (perm : List Nat) (d : DS) : Res DS := do
-  let _ ← d.len
+  let n ← d.len
+  -- a generator that does not touch the array leaves `arange(n)` (only the harness' stub does that)
+  let perm := if perm.length == n then perm else List.range n
   mkSlice (.idx (perm.map Int.ofNat)) d
 
 /-- sort keys are ints or strs (what the menu of key functions produces) -/
